@@ -73,10 +73,21 @@ func fieldRoot(v ssa.Value) (ssa.Value, string) {
 }
 
 func checkC04(c *Ctx) {
+	c.checkKeyMakers("C04", 6)
 	p := c.P
 	r := c.R
 	reach := c.LiveReach()
 	roots := c.Roots()
+
+	// pool, batches and their counters survive a restart (the genesis clauses of C15 about them)
+	c.includeKeys("genesis", "C15", rulesIn("C15.faithful-import", "C15.field-roundtrip", "C15.prefix-export"), func(rule, key string) bool {
+		for _, k := range []string{"SendToExternalKey", "UnbatchedSendToExternalTxs", "LastOutgoingBatchNonceKey", "LastOutgoingBatchTxNonce", "LastSendToExternalIDKey", "OutgoingTxKey", "OutgoingTxs"} {
+			if strings.Contains(key, k) {
+				return true
+			}
+		}
+		return false
+	})
 
 	// ---- C04.pool-writers -------------------------------------------------
 	r.Min("C04.pool-writers", 6)
@@ -141,7 +152,7 @@ func checkC04(c *Ctx) {
 				continue
 			}
 			// the u64 and fill32 parts carry the values
-			var idP, feeP *ana.Part
+			var idP, feeP, chainP *ana.Part
 			for k := range op.Key.Parts {
 				pt := &op.Key.Parts[k]
 				switch pt.Kind {
@@ -149,6 +160,8 @@ func checkC04(c *Ctx) {
 					idP = pt
 				case "fill32":
 					feeP = pt
+				case "chain":
+					chainP = pt
 				}
 			}
 			if idP == nil || feeP == nil {
@@ -166,10 +179,25 @@ func checkC04(c *Ctx) {
 					okAll = false
 					detail = sprintf("at %s: id<-%v fee<-%v", where, il.List(), fl.List())
 				}
+				// a pool entry does not record the chain whose pool it sits in: a delete whose chain component is
+				// taken from the entry (its RefundChainId) addresses another chain's pool and removes nothing
+				if op.Op == "Delete" && chainP != nil {
+					cl := p.PartLeaves(*chainP, outer, ana.PVOpt{})
+					for _, fld := range cl.Fields() {
+						if strings.HasPrefix(fld, "SendToExternal.") {
+							okAll = false
+							detail = sprintf("at %s: the chain component of the deleted key derives from the entry's %s", where, fld)
+						}
+					}
+				}
 			}
 			il0 := p.PartLeaves(*idP, nil, ana.PVOpt{})
 			fl0 := p.PartLeaves(*feeP, nil, ana.PVOpt{})
-			if (il0.HasPrefix("param:") && !il0.HasPrefix("field:")) || (fl0.HasPrefix("param:") && !fl0.HasPrefix("field:")) {
+			cparam := false
+			if chainP != nil && op.Op == "Delete" {
+				cparam = p.PartLeaves(*chainP, nil, ana.PVOpt{}).HasPrefix("param:")
+			}
+			if cparam || (il0.HasPrefix("param:") && !il0.HasPrefix("field:")) || (fl0.HasPrefix("param:") && !fl0.HasPrefix("field:")) {
 				for _, e := range p.In[f] {
 					if reach[e.Caller] {
 						check(e.Site, c.pos(e.Site))
